@@ -412,4 +412,209 @@ theorem Compose_hybrid [LinearOrder D]
 
 end history
 
+/-! ### non-vacuity: a concrete history with one filter index, one flat index and one text index
+
+Schema: integer index on `n`, vectorFlat index on `v` (2-d integer grid, squared Euclidean distance: exact,
+ties frequent), text index on `t` (analyser: every non-blank byte is a token); file backend.
+History: insert `u1`, `u2`, `u3` (node ids 2, 3, 4; `u3` has no text; the three analysed documents reach the
+text writer in REVERSE order) · update `u2` (vector and text change) · delete `u1` · insert `u4` (no vector;
+REUSES node id 2). -/
+
+section examples
+
+def exVecs : List C02.Val → Option (List Int)
+  | [] => some []
+  | .int x :: r => (exVecs r).map (x.toInt :: ·)
+  | _ :: _ => none
+
+def exDist : List Int → List Int → Nat
+  | a :: q, b :: v => ((a - b) * (a - b)).toNat + exDist q v
+  | _, _ => 0
+
+def exREnv : Env (List Int) Byte Nat Int Int where
+  vec := fun x => match x with | .arr l => exVecs l | _ => none
+  toks := fun b => b.filter (fun c => c != 0x20#8)
+  dist := exDist
+  fscale := fun w d => w * d
+  neg := fun s => -s
+  ops := { zero := 0, add := fun a b => a + b, tf := fun f l => (f * 100 / l : Nat), idf := fun n k => (n + 1 - k : Nat),
+           mul := fun a b => a * b, scale := fun w s => w * s }
+  hadd := fun a b => a + b
+
+/-- the readers of a stored value, on the value texts of the example -/
+def exRConv : Conv where
+  idx := fun s =>
+    if s = "5" then .int 5#64 else if s = "7" then .int 7#64
+    else if s = "[0,0]" then .arr [.int 0#64, .int 0#64] else if s = "[3,4]" then .arr [.int 3#64, .int 4#64]
+    else if s = "[1,1]" then .arr [.int 1#64, .int 1#64] else if s = "[1,0]" then .arr [.int 1#64, .int 0#64]
+    else if s = "ab" then .str [0x61#8, 0x62#8] else if s = "bc b" then .str [0x62#8, 0x63#8, 0x20#8, 0x62#8]
+    else if s = "b" then .str [0x62#8] else .nil
+  sel := fun s => if s = "5" then .int 64 5#64 else if s = "7" then .int 64 7#64 else .nil
+
+def exRCfg : C01.Cfg := { maxSize := 5, size := fun d => d.length }
+
+def exRHist : List (C01.Op × ROracle Byte) :=
+  [ (.insert [("u1", some [("n", "5"), ("v", "[0,0]"), ("t", "ab")]),
+              ("u2", some [("n", "7"), ("v", "[3,4]"), ("t", "bc b")]),
+              ("u3", some [("n", "5"), ("v", "[1,1]")])], { arrive := List.reverse }),
+    (.update [("u2", some [("v", "[1,0]"), ("t", "b")])], {}),
+    (.delete ["u1"], {}),
+    (.insert [("u4", some [("n", "7"), ("t", "ab")])], {}) ]
+
+def exRInit : RState (List Int) Byte := RState.init [(["n"], .int)] true [["v"]] [["t"]]
+def exRFinal : RState (List Int) Byte := (RState.run C02.exLower exRConv exRCfg exREnv exRInit exRHist).1
+
+/-- outputs, and the point store: `u4` sits under the reused node id 2 -/
+example : (RState.run C02.exLower exRConv exRCfg exREnv exRInit exRHist).2 = [.ok, .updated ["u2"], .deleted ["u1"], .ok] := by decide
+example : exRFinal.base.shard.pts.pI = [("u2", 3), ("u3", 4), ("u4", 2)] := by decide
+/-- the flat store: the points that HAVE the field, each with the vector its document now carries -/
+example : exRFinal.flats.map (·.store) = [[(3#64, [1, 0]), (4#64, [1, 1])]] := by decide
+/-- the text index: two documents; `b` occurs in the texts of node ids 3 and 2, `c` nowhere any more -/
+example : exRFinal.texts.map (fun tx => (tx.ix.numDocs, C05.getSet tx.ix.sets 0x62#8, C05.getSet tx.ix.sets 0x63#8)) =
+    [(2, [2, 3], [])] := by decide
+/-- … after the first batch it held three vectors and two texts -/
+example : (RState.run C02.exLower exRConv exRCfg exREnv exRInit (exRHist.take 1)).1.flats.map (·.store) =
+    [[(2#64, [0, 0]), (3#64, [3, 4]), (4#64, [1, 1])]] := by decide
+
+private theorem exRNoFlt {rs : RState (List Int) Byte} (h : rs.base.schema = [(["n"], .int)]) : ∀ ix ∈ rs.base.idxs, ix.kind ≠ .flt := by
+  intro ix hix hk
+  have : (ix.path, ix.kind) ∈ rs.base.schema := List.mem_map.2 ⟨ix, hix, rfl⟩
+  rw [h, hk] at this
+  simp at this
+
+/-- the hypothesis `RHistOK` of `Compose_rank_inv_history` holds for this history (the reversed arrival order
+of the first batch is fine because its node ids are distinct: `arriveOK_of_perm_nodup`) -/
+theorem exRHistOK : RHistOK C02.exLower exRConv exRCfg exREnv exRInit exRHist := by
+  have s0 : exRInit.base.schema = [(["n"], .int)] := (rinit_schema _ _ _ _).1
+  have s1 := ((rstep_schema C02.exLower exRConv exRCfg exREnv exRInit exRHist[0].1 exRHist[0].2).1).trans s0
+  have s2 := ((rstep_schema C02.exLower exRConv exRCfg exREnv _ exRHist[1].1 exRHist[1].2).1).trans s1
+  have s3 := ((rstep_schema C02.exLower exRConv exRCfg exREnv _ exRHist[2].1 exRHist[2].2).1).trans s2
+  refine ⟨⟨by decide, fun pc _ ix hix hk => absurd hk (exRNoFlt s0 ix hix), ?_⟩,
+    ⟨by decide, fun pc _ ix hix hk => absurd hk (exRNoFlt s1 ix hix), ?_⟩,
+    ⟨by decide, fun pc _ ix hix hk => absurd hk (exRNoFlt s2 ix hix), ?_⟩,
+    ⟨by decide, fun pc _ ix hix hk => absurd hk (exRNoFlt s3 ix hix), ?_⟩, trivial⟩
+  · intro tx htx
+    refine arriveOK_of_perm_nodup _ _ (List.reverse_perm _) ?_
+    have : tx = ⟨["t"], {}⟩ := by simpa [exRInit, RState.init] using htx
+    subst this; decide
+  all_goals (intro tx _ id; rfl)
+
+/-- so the invariant holds in the final state (the hypothesis `hR` of the `_state` theorems) -/
+theorem exRInv : RInv C02.exLower exRConv exREnv exRFinal :=
+  (Compose_rank_inv_history C02.exLower exRConv exRCfg exREnv _ _ _ _ exRHist exRHistOK).1
+
+/-- the oracles of a search: the store is enumerated BACKWARDS, every sort is an insertion sort -/
+def exOrc (sortOpts : List C06.SortOpt) : SOracle (List Int) Byte Int where
+  enum := List.reverse
+  tord := fun _ l => l.reverse
+  tsort := C06.isort fun a b => C06.cmpInt (-a.score) (-b.score)
+  hsort := C06.isort fun a b => C06.cmpInt (-a.hybrid) (-b.hybrid)
+  hstable := C06.isort fun a b => C06.cmpInt (-a.hybrid) (-b.hybrid)
+  rowSort := C06.isort fun a b => C06.sortCmp sortOpts a.data b.data
+
+/-- … and they satisfy `SOracle.OK` -/
+theorem exOrc_ok (sortOpts : List C06.SortOpt) : (exOrc sortOpts).OK (· ≤ ·) sortOpts where
+  enum_perm := fun l => List.reverse_perm l
+  tord_perm := fun _ l => List.reverse_perm l
+  tsort_perm := fun l => C06.isort_perm _ l
+  tsort_sorted := fun l => (C06.isort_sorted (C06.tpc_of_key (fun r : C05.Res Int => -r.score)) l).imp (by
+    intro a b hab
+    have := (C06.cmpInt_le (-a.score) (-b.score)).mp hab
+    show b.score ≤ a.score
+    omega)
+  hsort_perm := fun l => C06.isort_perm _ l
+  hsort_sorted := fun l => (C06.isort_sorted (C06.tpc_of_key (fun r : C06.Res Int => -r.hybrid)) l).imp (by
+    intro a b hab
+    have := (C06.cmpInt_le (-a.hybrid) (-b.hybrid)).mp hab
+    show b.hybrid ≤ a.hybrid
+    omega)
+  hstable_perm := fun l => C06.isort_perm _ l
+  hstable_sorted := fun l => (C06.isort_sorted (C06.tpc_of_key (fun r : C06.Res Int => -r.hybrid)) l).imp (by
+    intro a b hab
+    have := (C06.cmpInt_le (-a.hybrid) (-b.hybrid)).mp hab
+    show b.hybrid ≤ a.hybrid
+    omega)
+  row_perm := fun l => C06.isort_perm _ l
+  row_sorted := fun l => C06.isort_sorted (c := fun (a b : C06.Row Int) => C06.sortCmp sortOpts a.data b.data)
+    ⟨fun a b => (C06.tpc_sortCmp sortOpts).antisymm a.data b.data, fun a b c => (C06.tpc_sortCmp sortOpts).trans a.data b.data c.data⟩ l
+
+def ranswer : RAnswer Int → Option (List (Uuid × Option Int))
+  | .rows l => some (l.map fun r => (r.1, r.2.1))
+  | _ => none
+
+/-- `n ≥ 6` -/
+def exFilter : C02.Query := .leaf (.int ["n"] .ge 6#64 0#64)
+
+/-- a vector query for the 2 nearest to (0,0), weight 2: `u2` at squared distance 1, `u3` at 2 (`u4` has no
+vector) — hybrid scores −2·1, −2·2 -/
+def exFlatQ : RQuery (List Int) Byte Int := .leaf (.flat ["v"] [0, 0] 2 2 none)
+example : ranswer (rsearchPoints C02.exLower exRConv exREnv (exOrc []) exRFinal exFlatQ ⟨[["*"]], [], 0, 0⟩) =
+    some [("u2", some (-2)), ("u3", some (-4))] := by decide
+/-- … within the pre-filter `n ≥ 6` only `u2` is a candidate -/
+def exFlatFQ : RQuery (List Int) Byte Int := .leaf (.flat ["v"] [0, 0] 2 2 (some exFilter))
+example : ranswer (rsearchPoints C02.exLower exRConv exREnv (exOrc []) exRFinal exFlatFQ ⟨[["*"]], [], 0, 0⟩) =
+    some [("u2", some (-2))] := by decide
+/-- the hypotheses of `Compose_flat_state` hold for it -/
+example : exFlatFQ.wf exRFinal exRConv = true ∧ (∀ q, some exFilter = some q → q.Valid) :=
+  ⟨by decide, fun q hq => by cases hq; exact (C02.Query.valid_leaf _).2 (C02.Leaf.valid_int ..)⟩
+/-- … and the candidate it returns is one of the reference map: `u2`'s document carries `[1,0]` and has `n = 7` -/
+example : FlatCand C02.exLower exRConv exREnv [(["n"], .int)] (C01.abs exRFinal.base.shard) ["v"] [0, 0] (some exFilter) "u2" 1 :=
+  ⟨some [("n", "7"), ("v", "[1,0]"), ("t", "b")], [1, 0], by decide, by decide, by decide,
+    fun q hq => by cases hq; exact ⟨rfl, 7#64, by decide, by decide⟩⟩
+
+/-- a text query "contains any of `b`", weight 3, limit 5: `u2` (text `b`: tf 100) before `u4` (text `ab`: tf 50);
+idf = 2 + 1 − 2 = 1 over the CURRENT corpus of two documents -/
+def exTextQ : RQuery (List Int) Byte Int := .leaf (.text ["t"] [0x62#8] false 5 3 none)
+example : ranswer (rsearchPoints C02.exLower exRConv exREnv (exOrc []) exRFinal exTextQ ⟨[["*"]], [], 0, 0⟩) =
+    some [("u2", some 300), ("u4", some 150)] := by decide
+/-- the same numbers read off the reference map -/
+example : refN exRConv exREnv ["t"] (C01.abs exRFinal.base.shard) = 2 ∧
+    refDf exRConv exREnv ["t"] (C01.abs exRFinal.base.shard) 0x62#8 = 2 ∧
+    refScore exRConv exREnv ["t"] (C01.abs exRFinal.base.shard) [0x62#8] "u2" = 100 ∧
+    refScore exRConv exREnv ["t"] (C01.abs exRFinal.base.shard) [0x62#8] "u4" = 50 := by decide
+example : TextMatch C02.exLower exRConv exREnv [(["n"], .int)] (C01.abs exRFinal.base.shard) ["t"] [0x62#8] false none "u4" :=
+  ⟨by decide, by decide, by simp only [Bool.false_eq_true, if_false]; exact ⟨0x62#8, by decide, by decide⟩, fun q hq => by cases hq⟩
+
+/-- a hybrid query `_or [vector (weight 1), text (weight 3), n = 5]`: `u2` is ranked by both (−1 + 300), `u4` by the
+text leaf only, `u3` by the vector leaf only (−2; the filter leaf matches it too and adds nothing) -/
+def exHybridQ : RQuery (List Int) Byte Int :=
+  .or (.cons (.leaf (.flat ["v"] [0, 0] 2 1 none))
+      (.cons (.leaf (.text ["t"] [0x62#8] false 5 3 none))
+      (.cons (.leaf (.filt (.int ["n"] .equals 5#64 0#64))) .nil)))
+example : ranswer (rsearchPoints C02.exLower exRConv exREnv (exOrc []) exRFinal exHybridQ ⟨[["*"]], [], 0, 0⟩) =
+    some [("u2", some 299), ("u4", some 150), ("u3", some (-2))] := by decide
+/-- … `_and [vector, n ≥ 6]` keeps the vector hit inside the filter; `_and [text, n ≥ 6]` with a second page -/
+example : ranswer (rsearchPoints C02.exLower exRConv exREnv (exOrc []) exRFinal
+    (.and (.cons (.leaf (.flat ["v"] [0, 0] 2 1 none)) (.cons (.leaf (.filt (.int ["n"] .ge 6#64 0#64))) .nil)))
+    ⟨[["*"]], [], 0, 0⟩) = some [("u2", some (-1))] := by decide
+example : ranswer (rsearchPoints C02.exLower exRConv exREnv (exOrc []) exRFinal
+    (.and (.cons (.leaf (.text ["t"] [0x62#8] false 5 3 none)) (.cons (.leaf (.filt (.int ["n"] .ge 6#64 0#64))) .nil)))
+    ⟨[["*"]], [], 1, 1⟩) = some [("u4", some 150)] := by decide
+/-- the hypotheses of `Compose_hybrid_state` hold for the hybrid query -/
+example : exHybridQ.wf exRFinal exRConv = true ∧ exHybridQ.Valid := by
+  refine ⟨by decide, ?_⟩
+  simp only [exHybridQ, RQuery.Valid, RQuery.allLeaves, RQList.allLeaves, RLeaf.Valid, and_true]
+  exact ⟨fun q hq => (by cases hq), fun q hq => (by cases hq), C02.Leaf.valid_int ..⟩
+/-- … so the theorem applies to it -/
+example : ∃ rows : List (Nat × Uuid × Option Int × C06.Doc),
+    rsearchPoints C02.exLower exRConv exREnv (exOrc []) exRFinal exHybridQ ⟨[["*"]], [], 0, 0⟩ =
+      .rows (((rows.drop 0).take (if (0 : Nat) = 0 then rows.length else 0)).map (·.2)) ∧ (rows.map (·.2.1)).Nodup := by
+  obtain ⟨_, rows, h1, _, h2, _⟩ := Compose_hybrid_state (D := Nat) exRInv (exOrc []) (· ≤ ·) ⟨[["*"]], [], 0, 0⟩ (exOrc_ok [])
+    (fun a b => Int.add_comm a b) (fun a b c => Int.add_assoc a b c) exHybridQ (by decide)
+    (by simp only [exHybridQ, RQuery.Valid, RQuery.allLeaves, RQList.allLeaves, RLeaf.Valid, and_true]
+        exact ⟨fun q hq => (by cases hq), fun q hq => (by cases hq), C02.Leaf.valid_int ..⟩)
+    (by simp) 0 0 rfl rfl (by decide) (by decide)
+  exact ⟨rows, h1, h2⟩
+
+/-- rejected batches (`Compose_rank_rejected_noop`): a string under the vector property, a number under the text
+property — each is refused with reason `index` … -/
+example : ((exRFinal.step C02.exLower exRConv exRCfg exREnv (.insert [("u9", some [("v", "ab")])]) {}).2 = .rejected .index) ∧
+    ((exRFinal.step C02.exLower exRConv exRCfg exREnv (.update [("u3", some [("t", "5")])]) {}).2 = .rejected .index) := by
+  decide
+/-- … and changes nothing -/
+example : (exRFinal.step C02.exLower exRConv exRCfg exREnv (.insert [("u9", some [("v", "ab")])]) {}).1 = exRFinal :=
+  (Compose_rank_rejected_noop C02.exLower exRConv exRCfg exREnv exRFinal _ _).2 .index (by decide)
+
+end examples
+
 end Sema.Compose
